@@ -39,9 +39,10 @@ def main():
         d = os.path.abspath(d)
         name = os.path.basename(d.rstrip("/"))
         meta = json.load(open(os.path.join(d, "meta.json")))
-        props = a.props.split(",") if a.props else [meta["property"]]
+        prop0 = meta.get("property") or meta["breaks_property"]
+        props = a.props.split(",") if a.props else [prop0]
         tmp = tempfile.mkdtemp(prefix="vf_seed_")
-        res = {"property": meta["property"], "summary": meta.get("summary"), "needs": meta.get("needs_to_manifest")}
+        res = {"property": prop0, "summary": meta.get("summary"), "needs": meta.get("needs_to_manifest")}
         try:
             dst = os.path.join(tmp, "repo")
             shutil.copytree("/repo", dst, ignore=shutil.ignore_patterns(".git", "__pycache__", "*.pyc", "docs", "examples"))
